@@ -53,6 +53,26 @@ CONTRACTS = [
         runner=("winrun.py", "window_when"),
     ),
     _c(
+        name="group_join", props=["C18"], file=OPS + "_groupjoin.py", func="group_join_",
+        call="group_join_(right, left_duration_mapper, right_duration_mapper)(left)", sources=("left", "right"),
+        params={"left_duration_mapper": "callback:source", "right_duration_mapper": "callback:source"},
+        spec="specs.c18:group_join", spec_args={"windows": "refmap", "held": "valmap"},
+        cells={"left_map": "refmap", "right_map": "valmap", "left_id": "cell:int", "right_id": "cell:int", "group.disposable": "seq"},
+        # the two maps of the real code ARE the open windows and the retained right elements; ids are handed out in order
+        inv="same(left_map, s.windows) and same(right_map, s.held) and left_id[0] == s.nl and right_id[0] == s.nr",
+        ends_with_source=False,
+        # after the end the maps are only changed by expiries: pending durations still find their entries
+        inv_done="True", done_quiet=False,
+        families={
+            "ldur": dict(spec=("ldur_next", "ldur_error", "ldur_completed"), source="left", id_local="_id", once=True,
+                         inv="maps_to(left_map, _id, subject) and contains(group.disposable, md) and _id < left_id[0]",
+                         locals={"_id": "int", "subject": "ref:subject", "md": "ref"}, unique=("_id", "subject", "md")),
+            "rdur": dict(spec=("rdur_next", "rdur_error", "rdur_completed"), source="right", id_local="_id", once=True,
+                         inv="has_key(right_map, _id) and contains(group.disposable, md) and _id < right_id[0]",
+                         locals={"_id": "int", "md": "ref"}, unique=("_id", "md")),
+        },
+    ),
+    _c(
         name="window_with_time", props=["C18"], file=OPS + "_windowwithtime.py", func="window_with_time_",
         call="window_with_time_(timespan, timeshift, scheduler)(source)", params={"timespan": "int", "timeshift": "opt:int"}, scheduler="scheduler",
         requires="timespan >= 1 and (True if timeshift is None else timeshift >= 1)",
